@@ -371,7 +371,14 @@ def build_pt(spec, *, with_tags: bool = True, output_order=None) -> PtProgram:
         else:
             args = [decode_arg(a, env) for a in node.get("args", [])]
             ary = apply_pt(op, args, node.get("p"))
-        if with_tags and node.get("tags"):
+        if with_tags and node.get("tags") and op not in INPUT_OPS:
+            # operations that return an input itself (roll by 0, real of a
+            # real array, sum over no axes, ...) must not re-tag it: that
+            # would create a second, different input of the same name
+            import pytato as pt
+            if not isinstance(ary, pt.array.InputArgumentBase):
+                ary = apply_tags(ary, node["tags"])
+        elif with_tags and node.get("tags"):
             ary = apply_tags(ary, node["tags"])
         env.append(ary)
     outs = list(spec["outputs"])
